@@ -418,3 +418,47 @@ Definition avail_in : val :=
       VL [VL [VZ 0; VZ 2]; VL [VZ 2; VZ 1; VZ 0]; VL [VZ 0; VZ 2]; VL [VZ 2; VZ 1; VZ 1]; VL [VZ 0; VZ 8]]].
 Lemma avail_refuted : prop_C01 avail_in (run_C01 avail_in) = false /\ kf_C01 avail_in = 1.
 Proof. vm_compute. split; reflexivity. Qed.
+
+(* ------------------------------------------------------------------------------------------- *)
+(* smoothBalance on the backend list: the pick is an eligible backend, only credits change.      *)
+Definition bcfg (b : backend) : Z * Z * bool := (b_id b, b_w b, b_av b).
+
+Lemma elig_set_c b c : elig (set_c b c) = elig b.
+Proof. destruct b as [[[i w] c0] a]. reflexivity. Qed.
+Lemma bcfg_set_c b c : bcfg (set_c b c) = bcfg b.
+Proof. destruct b as [[[i w] c0] a]. reflexivity. Qed.
+
+Lemma writeback_bcfg : forall bs s, map bcfg (writeback bs s) = map bcfg bs.
+Proof.
+  induction bs as [|b r IH]; intros s; simpl; [reflexivity|].
+  destruct (elig b).
+  - destruct s as [|[w c] s']; simpl; [reflexivity|]. rewrite bcfg_set_c, IH. reflexivity.
+  - simpl. rewrite IH. reflexivity.
+Qed.
+
+Lemma swrr_pick_lt (s : st) : s <> [] -> (swrr_pick s < length s)%nat.
+Proof.
+  intros H. destruct (swrr_pick_ok s H) as [w [c [Hn _]]]. apply nth_error_Some. rewrite Hn. discriminate.
+Qed.
+
+Lemma view_length bs : length (view bs) = length (elig_ids bs).
+Proof. unfold view, elig_ids. rewrite !map_length. reflexivity. Qed.
+
+Lemma elig_ids_in bs p : In p (elig_ids bs) <-> exists b, In b bs /\ elig b = true /\ b_id b = p.
+Proof.
+  unfold elig_ids. rewrite in_map_iff. split.
+  - intros [b [E Hb]]. apply filter_In in Hb. exists b. tauto.
+  - intros [b [Hb [He E]]]. exists b. split; [exact E|]. apply filter_In. tauto.
+Qed.
+
+Theorem smooth_some bs p bs' : smooth bs = Some (p, bs') ->
+  (exists b, In b bs /\ elig b = true /\ b_id b = p) /\ map bcfg bs' = map bcfg bs.
+Proof.
+  unfold smooth, smooth_by. destruct (view bs) as [|x s] eqn:Ev; [discriminate|].
+  intros H. inversion H; subst; clear H. split; [|apply writeback_bcfg].
+  apply elig_ids_in. apply nth_In. rewrite <- view_length, Ev. apply swrr_pick_lt. discriminate.
+Qed.
+Theorem smooth_none bs : smooth bs = None <-> filter elig bs = [].
+Proof.
+  unfold smooth, smooth_by, view. destruct (filter elig bs) as [|b r]; simpl; split; intros H; try reflexivity; discriminate.
+Qed.
